@@ -428,3 +428,43 @@ def rich_shapes(rng: random.Random, count: int, classes=None) -> list[tuple[str,
             e = getattr(X, root)(child())
         out.append(("shape:" + root, e))
     return out
+
+
+# ----------------------------------------------------------------------------- unary chains
+
+def unary_makers() -> list[tuple[str, str, object]]:
+    """(class, label, constructor) for every unary class with the parameter values rules single out"""
+    out = [("Negation", "Negation", X.Negation), ("Reciprocal", "Reciprocal", X.Reciprocal),
+           ("Cosine", "Cosine", X.Cosine), ("Sine", "Sine", X.Sine)]
+    for n in (1, 2, 3, 4, 5, 6):
+        out.append(("NthPower", f"NthPower{n}", (lambda k: lambda u: X.NthPower(u, k))(n)))
+        out.append(("NthRoot", f"NthRoot{n}", (lambda k: lambda u: X.NthRoot(u, k))(n)))
+    for b, lb in ((math.e, "e"), (2, "2"), (0.5, "half"), (1, "1")):
+        out.append(("Exponential", f"Exp{lb}", (lambda k: lambda u: X.Exponential(u, base=k))(b)))
+        if b != 1:
+            out.append(("Logarithm", f"Log{lb}", (lambda k: lambda u: X.Logarithm(u, base=k))(b)))
+    return out
+
+
+def unary_chains(rng: random.Random, count: int, top: list[str] | None = None) -> list[tuple[str, object]]:
+    """f(g(h(leaf))) over all unary constructors and their parameters: where a rule about `f(g(u))`
+    meets a `u` that is itself a root, a power, a reciprocal ... With ``top`` every chain under each
+    parameter variant of those classes is enumerated instead of sampled."""
+    M = unary_makers()
+    x = X.Variable("x")
+    leaves = [lambda: x, lambda: X.Minus(x, X.Constant(1)), lambda: X.Multiply(x, X.Variable("y"))]
+    out = []
+    if top:
+        for c1, l1, f1 in M:
+            if c1 not in top:
+                continue
+            for c2, l2, f2 in M:
+                for c3, l3, f3 in M:
+                    out.append((f"chain:{l1}/{l2}/{l3}", f1(f2(f3(rng.choice(leaves)())))))
+        rng.shuffle(out)
+        return out[: max(count, 1)]
+    for _ in range(count):
+        (c1, l1, f1), (c2, l2, f2), (c3, l3, f3) = rng.choice(M), rng.choice(M), rng.choice(M)
+        e = f1(f2(f3(rng.choice(leaves)()))) if rng.random() < 0.8 else f1(f2(rng.choice(leaves)()))
+        out.append((f"chain:{l1}/{l2}/{l3}", e))
+    return out
